@@ -18,9 +18,10 @@ related() {   # properties whose checks observe the same code paths
   esac; }
 ids=${*:-$(ls $ROOT/seeded | grep '^C')}
 checks=$(python3 -c "import json;print(' '.join(x['property_id'] for x in json.load(open('$ROOT/MANIFEST.json'))['checks']))")
-: > $ROOT/seeded/matrix.tsv.new
+OUT=${MATRIX_OUT:-$ROOT/seeded/matrix.tsv}
+: > $OUT.new
 for id in $ids; do
-  ( cd $WT && git checkout -q -- . && git clean -fdq && git apply $ROOT/seeded/$id/patch.diff ) || { echo "$id APPLY-FAILED" | tee -a $ROOT/seeded/matrix.tsv.new; continue; }
+  ( cd $WT && git checkout -q -- . && git clean -fdq && git apply $ROOT/seeded/$id/patch.diff ) || { echo "$id APPLY-FAILED" | tee -a $OUT.new; continue; }
   prop=$(python3 -c "import json;print(json.load(open('$ROOT/seeded/$id/meta.json'))['property'])")
   if [ -n "$ALL" ]; then run=$checks; else run="$prop $(related $prop)"; fi
   for c in $run; do
@@ -28,9 +29,9 @@ for id in $ids; do
     nv=$(echo "$out" | grep -c '^VIOLATION')
     rp=$(echo "$out" | grep '^VIOLATION' | head -1 | sed 's/.*replay=//; s/ .*//')
     kind=""; [ -n "$rp" ] && [ -f "$rp" ] && kind=$(python3 -c "import json;print(json.load(open('$rp')).get('kind',''))" 2>/dev/null)
-    printf "%s\t%s\t%s\t%s\t%s\n" $id $c $rc $nv "$kind" >> $ROOT/seeded/matrix.tsv.new
+    printf "%s\t%s\t%s\t%s\t%s\n" $id $c $rc $nv "$kind" >> $OUT.new
   done
-  echo "$id done: $(grep -P "^$id\t" $ROOT/seeded/matrix.tsv.new | awk -F'\t' '$3!=0{printf "%s ", $2}')"
+  echo "$id done: $(grep -P "^$id\t" $OUT.new | awk -F'\t' '$3!=0{printf "%s ", $2}')"
 done
-mv $ROOT/seeded/matrix.tsv.new $ROOT/seeded/matrix.tsv
+mv $OUT.new $OUT
 git -C /repo worktree remove --force $WT; rm -rf $VC
